@@ -21,6 +21,14 @@ def gen(rng, tier):
         k = rng.choice([rng.randrange(1, N), rng.randrange(1, 2 ** 32), N - rng.randrange(1, 2 ** 32)])
         d = rng.choice([rng.randrange(2 ** 256), rng.randrange(2 ** 256), rng.randrange(N, 2 ** 256), rng.randrange(2 ** 16)])
         cases.append(Case("acct.sign %064x %064x" % (k, d), tags=("random", "digest>=n" if d >= N else "digest<n")))
+    # keys and digests that are 32 bytes of binary data but look like text (hex digits, 0x…, decimal, base64, words, blanks)
+    from vlib import magic
+    tl = [b for b, _ in magic.text_like(rng, 32)]
+    for b in tl:
+        cases.append(Case("acct.sign %064x %s" % (rng.randrange(1, N), b.hex()), tags=("text-like", "digest")))
+        if 0 < int.from_bytes(b, "big") < N:
+            cases.append(Case("acct.sign %s %064x" % (b.hex(), rng.randrange(2 ** 256)), tags=("text-like", "key")))
+            cases.append(Case("acct.sign %s %s" % (b.hex(), rng.choice(tl).hex()), tags=("text-like", "both")))
     # pairs chosen for what their signature looks like: r or s with leading zero bytes (1.2% of pairs; found once by
     # tools/gen_c05_corpus.py with an RFC 6979 implementation used for choosing inputs only) — "normalising" such signatures
     # by re-drawing the nonce, padding or trimming them shows here
